@@ -74,3 +74,19 @@ Theorem C09_cpp_complete_before_body_total : forall e fd n t,
   declared_before_use (fst (hpp_events e (S fd) (S n) t)) = true.
 Proof. exact cpp_complete_before_body_total. Qed.
 Print Assumptions C09_cpp_complete_before_body_total.
+
+(* ---------- include guards of the C++ headers (Headers/Guard.v): the path with '/' turned into '_', plus a suffix ---------- *)
+From DV Require Import Headers.Guard.
+(* when no namespace or type name contains an underscore, two different header paths never share a guard ... *)
+Theorem C09_cpp_guard_injective_on_clean_names : forall (A : Type) (sep : A) r c d s decl decl',
+  clean A sep c -> clean A sep d -> Forall (clean A sep) r -> Forall (clean A sep) s ->
+  guard A sep c r decl = guard A sep d s decl' -> c = d /\ r = s /\ decl = decl'.
+Proof. exact guard_injective_on_clean_names. Qed.
+Print Assumptions C09_cpp_guard_injective_on_clean_names.
+
+(* ... and otherwise they can: namespace `geo` + type `Point` and the root type `geo_Point` (recorded finding) *)
+Theorem C09_cpp_guard_injective_refuted :
+  guard nat 0 [7; 5; 15] [[16; 15; 9; 14; 20]] true = guard nat 0 [7; 5; 15; 0; 16; 15; 9; 14; 20] [] true /\
+  ([7; 5; 15], [[16; 15; 9; 14; 20]]) <> ([7; 5; 15; 0; 16; 15; 9; 14; 20], @nil (list nat)).
+Proof. exact guard_injective_refuted. Qed.
+Print Assumptions C09_cpp_guard_injective_refuted.
